@@ -21,6 +21,17 @@ type Ctx struct {
 	R    *Report
 	Tier string
 	Dir  string // repo dir
+	// Overlay holds analysis-time file replacements (mutant self-test); non-Go inputs consult it too.
+	Overlay map[string][]byte
+}
+
+// readRepoFile reads a file of the repository, honouring the overlay.
+func (c *Ctx) readRepoFile(rel string) ([]byte, error) {
+	abs := filepath.Join(c.Dir, rel)
+	if b, ok := c.Overlay[abs]; ok {
+		return b, nil
+	}
+	return os.ReadFile(abs)
 }
 
 // fn resolves an anchor function; an unresolved anchor is an undecided obligation.
@@ -178,7 +189,7 @@ func cmdCheck(args []string) (code int) {
 		return 2
 	}
 	r := NewReport(*prop, *tier, p.Roots[0].Fset, *repo)
-	c := &Ctx{P: p, R: r, Tier: *tier, Dir: *repo}
+	c := &Ctx{P: p, R: r, Tier: *tier, Dir: *repo, Overlay: overlay}
 	pc.Run(c)
 	known, err := loadKnown(filepath.Join(vdir, "known_findings.json"))
 	if err != nil {
